@@ -508,6 +508,23 @@ for _k in ("alnum", "alpha", "ascii", "blank", "cntrl", "digit", "graph", "lower
 WITNESSES += ["[[.a.]]", "[[=a=]]", "[a[:digit:]_]*"]
 
 
+def read_regress(path):
+    """pinned regression inputs: one per line; '# ' comment lines and empty lines skipped"""
+    out = []
+    try:
+        for line in open(path, encoding="utf-8"):
+            line = line.rstrip("\n")
+            if line and not line.startswith("# ") and line != "#":
+                out.append(line)
+    except OSError:
+        pass
+    return out
+
+
+# the pinned regression corpus runs with the witnesses: first, on every seed and tier
+WITNESSES = read_regress(os.path.join(ROOT, "corpus", "c17", "regress.txt")) + WITNESSES
+
+
 def run(ctx):
     ctx.coq_props(extra_targets=["Pattern/CaseEval.vo"])
     binp = ctx.go_build("c17")
@@ -580,8 +597,8 @@ def run(ctx):
         ctx.broken.append(("harness-run", "star-run law produced no summary: " + err6[-300:]))
     if not nsweep:
         ctx.broken.append(("harness-run", "literal sweep produced no summary"))
-    allrows = wrows + rows + trows + brows
-    spec_cases, nfail = search(ctx, allrows, 10 if quick else 40)
+    allrows = wrows + rows + trows + brows      # pinned regression corpus and witnesses first
+    spec_cases, nfail = search(ctx, allrows, 20 if quick else 40)
     ctx.extra["search_patterns"] = len(allrows)
     ctx.extra["search_disagreements_all_classified"] = nfail
     spec_leg(ctx, spec_cases)
